@@ -107,6 +107,9 @@ type c12Scn struct {
 	Count   int `json:"elements,omitempty"`  // DEL with Count-1 generated arguments of 0..8 bytes
 	BulkLen int `json:"bulk_len,omitempty"`  // SET k <argument of BulkLen patterned bytes>
 	RBuf    int `json:"reply_buf,omitempty"` // proto.Reader size used to read the encoding back (default 32)
+	// family "several large values on one decoder": generated commands instead of Cmds, one entry
+	// per command = the lengths of its arguments (c12m_test.go); HB applies
+	Lens [][]int `json:"arg_lens,omitempty"`
 	// path "parse" only (c12e_test.go)
 	Start   int64 `json:"start_offset,omitempty"`
 	StartDb int   `json:"start_db,omitempty"`
@@ -121,6 +124,9 @@ func (s *c12Scn) commands() []c12Cmd {
 	// a generated command is followed by two short ones, so that an offset error that starts
 	// at the large command shows on the later commands too
 	tail := []c12Cmd{{name: "SET", args: [][]byte{[]byte("t1"), []byte("v\r\n")}}, {name: "Incr", args: [][]byte{[]byte("t2")}}}
+	if len(s.Lens) > 0 {
+		return c12mCommands(s.Lens)
+	}
 	if s.Count > 0 {
 		return append([]c12Cmd{c12ManyArgs(s.Count)}, tail...)
 	}
@@ -224,6 +230,10 @@ func refParse(p []byte) ([][]byte, int, error) {
 // stream builds the source byte stream, the stream position after each command's
 // last byte, and the token boundaries (used to pick split points for long streams).
 func (s *c12Scn) stream(cmds []c12Cmd) (data []byte, ends []int64, bounds []int) {
+	if len(s.Lens) > 0 {
+		data, ends = c12mStream(cmds, s.HB)
+		return data, ends, nil
+	}
 	if s.Count > 0 || s.BulkLen > 0 { // generated command + two short ones, explicit fragmentations only
 		data = make([]byte, 0, 16*s.Count+s.BulkLen+128)
 		for _, c := range cmds {
@@ -569,7 +579,7 @@ func c12Splits(n int, bounds []int, buf int, all bool) []int {
 // driver
 
 func (s *c12Scn) hasLong() bool {
-	if s.BulkLen > 0 {
+	if s.BulkLen > 0 || len(s.Lens) > 0 {
 		return true
 	}
 	for _, c := range s.Cmds {
@@ -583,7 +593,7 @@ func (s *c12Scn) hasLong() bool {
 }
 
 func (s *c12Scn) nontrivial() bool {
-	if s.Count > 0 || s.BulkLen > 0 {
+	if s.Count > 0 || s.BulkLen > 0 || len(s.Lens) > 0 {
 		return true
 	}
 	for _, h := range s.HB {
@@ -609,6 +619,8 @@ func (s *c12Scn) shape() string {
 		}
 	}
 	switch {
+	case len(s.Lens) > 0:
+		return "multi-large"
 	case s.Count > 0:
 		return "many-args"
 	case hb:
@@ -678,6 +690,8 @@ func c12RunDecode(s c12Scn, pairs bool) (mc.Result, *c12Scn, int) {
 		if s.Count > 0 || s.BulkLen > 0 {
 			po = nil
 			obs = []string{s.Path, strconv.Itoa(s.Count), strconv.Itoa(s.BulkLen), strconv.Itoa(s.Buf), s.Frag, fmt.Sprint(s.Cuts)}
+		} else if len(s.Lens) > 0 {
+			obs = []string{s.Path, fmt.Sprint(s.Lens), fmt.Sprint(s.HB), strconv.Itoa(s.Buf), s.Frag}
 		}
 		if r := one(s.Frag, s.Cuts, po); r != nil {
 			if s.Frag == "mid" || s.Frag == "pages" {
@@ -726,7 +740,7 @@ func c12RunEncode(s c12Scn) mc.Result {
 	if f != nil {
 		return c12Result(&s, f)
 	}
-	parts := []string{s.Path, strconv.Itoa(s.Buf), strconv.Itoa(s.Count), strconv.Itoa(s.BulkLen), strconv.Itoa(s.RBuf)}
+	parts := []string{s.Path, strconv.Itoa(s.Buf), strconv.Itoa(s.Count), strconv.Itoa(s.BulkLen), strconv.Itoa(s.RBuf), fmt.Sprint(s.Lens)}
 	for _, c := range s.Cmds {
 		parts = append(parts, fmt.Sprint(c))
 	}
@@ -784,6 +798,9 @@ func runC12(rep *mc.Reporter) {
 			rep.Exec(s, nil, res)
 		} else if s.Path == "encode-typed" {
 			rep.Exec(s, nil, c12RunTyped(s))
+		} else if s.Path == "relay" {
+			res, _ := c12RunRelay(s)
+			rep.Exec(s, nil, res)
 		} else if s.Path == "decode" {
 			res, v, _ := c12RunDecode(s, false)
 			if v != nil {
@@ -956,6 +973,7 @@ func runC12(rep *mc.Reporter) {
 		}
 	}
 	c12RunBoundaries(rep, mine, thorough, &decoderRuns, &parserRuns)
+	c12RunMultiLarge(rep, mine, thorough, &decoderRuns, &parserRuns)
 	rep.Count("decoder_runs", decoderRuns)
 	rep.Count("parser_runs", parserRuns)
 	if budget.Expired() {
